@@ -17,6 +17,8 @@ mod c17;
 mod c18;
 mod client;
 mod poolop;
+mod sched;
+mod sched_async;
 mod server;
 mod tlsop;
 
@@ -46,6 +48,7 @@ fn eval(op: &str, args: &[&str]) -> Option<Vec<String>> {
         "hname" => c02::hname(args),
         "mime" => c11::mime(args),
         "dkim" => c13::dkim(args),
+        "sched" => sched::sched(args),
         "dkimbody" => c13::dkimbody(args),
         "dkimhdrs" => c13::dkimhdrs(args),
         "mbox" => c17::mbox(args),
